@@ -386,16 +386,14 @@ func (idx *Index) FitToBounds(bounds *dvid.OptionalBounds) error {
 	if bounds == nil {
 		return nil
 	}
+	// Keep the blocks within the bounds and drop the others.  The map is unordered, so every block
+	// must be tested (no early exit on Z).
 	for zyx := range idx.Blocks {
 		x, y, z := DecodeBlockIndex(zyx)
 		blockPt := dvid.ChunkPoint3d{x, y, z}
-		if bounds.BeyondZ(blockPt) {
-			break
-		}
 		if bounds.Outside(blockPt) {
-			continue
+			delete(idx.Blocks, zyx)
 		}
-		delete(idx.Blocks, zyx)
 	}
 	return nil
 }
